@@ -51,6 +51,7 @@ def _finish(pid, tier, seed, t0, outs, mc_stats, rule, assumptions, extra_cov=No
             print('VIOLATION property=%s replay=%s clause=%s event=%d all=%s (%s)'
                   % (pid, path, v['clause'], v['at'], ','.join(v.get('also', [])),
                      'backup store binding: ' + str(v.get('detail', '')) if sc.get('backupbind')
+                     else 'lock order over all threaded executions: ' + str(v.get('detail', '')) if sc.get('lockorder')
                      else 'recorded run of the repository test suite'))
             reported += 1
             continue
@@ -498,6 +499,33 @@ def run_property(pid, tier, seed, scale=1.0):
             o = runner.Outcome()
             o.machinery = [('repotests', repr(x)[:1500])]
             outs.append(o)
+    if P.get('thread_units'):
+        # lock-order relation over all threaded executions of this check (spec/LockOrder.tla)
+        from . import lockorder
+        edges, same = set(), set()
+        for o in outs:
+            edges |= getattr(o, 'lock_edges', set())
+            same |= getattr(o, 'lock_same', set())
+        o = runner.Outcome()
+        o.total = 1
+        try:
+            clause, detail, n_edges = lockorder.judge(edges, same)
+        except Exception as x:      # noqa
+            clause, detail, n_edges = 'H:lockorder', repr(x)[:1500], 0
+        if clause == '':
+            o.accepted = 1
+        elif clause.startswith('H:'):
+            o.machinery = [('lockorder', detail)]
+        else:
+            lsc = {'id': 'lockorder', 'recorded': True, 'lockorder': {'edges': sorted(edges), 'same': sorted(same)}, 'steps': []}
+            o.violations.append((lsc, {'id': 'lockorder', 'events': []},
+                                 {'verdict': 'rejected', 'clause': clause, 'at': 0, 'also': [clause], 'detail': detail,
+                                  'st': {}, 'kf': []}))
+            o.clause_hist[clause] = 1
+        outs.append(o)
+        extra_cov = dict(extra_cov or {}, lock_order={'held_before_edges': sorted(map(list, edges)),
+                                                     'nested_same_role': sorted(map(list, same)),
+                                                     'spec': 'LockOrder: acyclic, agrees with the documented order'})
     if P.get('backupbind'):
         # mechanism-level binding of spec/FBBackup.tla (slot naming, restore_all) to FileBackups
         from . import backupbind
@@ -543,6 +571,14 @@ def replay(pid, path):
     with open(path) as f:
         d = json.load(f)
     sc = d['scenario']
+    if sc.get('lockorder'):
+        from . import lockorder
+        clause, detail, n = lockorder.judge(sc['lockorder']['edges'], sc['lockorder']['same'])
+        print('lock order, %d edges: %s %s' % (n, clause or 'accepted', detail))
+        if clause:
+            print('VIOLATION property=%s replay=%s clause=%s' % (pid, path, clause))
+            return 1
+        return 0
     if sc.get('backupbind'):
         from . import backupbind
         clause, detail, _ = backupbind.run(sc['backupbind'])
